@@ -11,7 +11,9 @@ TEXTS = ["Re:Zero", "a // b", "//lead", "x: y: z", "[General]", "osu file format
          # soft hyphen, zero-width space, a BOM and a no-break space INSIDE the text, control characters, quotes and apostrophes
          "Cafe\u0301 del Mar", "か\u3099き", "👩\u200d👩\u200d👧", "soft\u00adhyphen", "zero\u200bwidth", "in\ufeffside", "no\u00a0break", "bell\x07x", "it's \"so\"", "\u202eRTL"]
 FILES = ["audio.mp3", "dir/sub/a.ogg", "with space.mp3", "colon:name.mp3", "ünï.ogg", "a[1].mp3", "x.MP4", "a", "mp3", "0", "1.5", "-1",
-         "Cafe\u0301.mp3", "か\u3099.ogg", "soft\u00adhyphen.mp3", "it's \"so\".mp3", "bell\x07.ogg"]
+         "Cafe\u0301.mp3", "か\u3099.ogg", "soft\u00adhyphen.mp3", "it's \"so\".mp3", "bell\x07.ogg",
+         # an AUDIO name is written bare and read back bare: quotes at its ends are part of it (seed C03-q: the event-style clean-up applied to it)
+         "\"Heroes\" (live).mp3", "audio/take 2 \"final\"", "\"", "\"a\"", "\"\"x", "'single'"]
 BGS = ["bg.jpg", "dir/bg.png", "with space.png", "colon:bg.png", "日本.jpg", "a.b.c.jpeg",
        # short names and names that end like a video (the Video event has an extension rule; a Background event has none)
        "bg", "a", "ab", "cover.AVI", "intro.mp4", "x.mov", "clip.flv", "m.mpg", "w.wmv", "v.m4v", "mp4", ".avi", "日本.MP4",
